@@ -33,7 +33,7 @@ class Ctx:
         self.rng = random.Random(seed)
 
     def world(self, world, config=None, digests=False):
-        key = lib.sha([world, config, digests])
+        key = lib.sha([world, config, digests])  # noqa
         with self.lock:
             ent = self.worlds.get(key)
             if ent is None:
@@ -106,7 +106,7 @@ def execute_all(prop, scenarios, ctx):
     nproc = getattr(prop, "POOL", 14)
     groups = {}
     for s in scenarios:
-        groups.setdefault(lib.sha([s.get("world"), (s.get("env") or {}).get("config")]), []).append(s)
+        groups.setdefault(lib.sha([s.get("worldkey") or s.get("world"), (s.get("env") or {}).get("config")]), []).append(s)
     buckets = [[] for _ in range(nproc)]
     for g in sorted(groups.values(), key=len, reverse=True):
         if len(g) > 4 * max(1, len(scenarios) // nproc):      # one huge world: spread it
@@ -133,7 +133,7 @@ def load_known(prop):
     return {f["key"]: f for f in data.get("findings", []) if f["property"] == prop and f["status"] == "open"}
 
 
-def judge(prop, obs, ctx, shards=8):
+def judge(prop, obs, ctx, shards=12):
     """Run the TLA+ judge over observation records; returns list of verdict dicts."""
     if not obs:
         return []
@@ -157,7 +157,7 @@ def judge(prop, obs, ctx, shards=8):
         if r.lines["JUDGED"][-1]["n"] != n or len(r.lines["VERDICT"]) != n:
             raise ToolError("judge consumed %s of %d records" % (r.lines["JUDGED"], n))
         return r.lines["VERDICT"], r.distinct
-    res = lib.pmap(one, files, workers=min(8, len(files)))
+    res = lib.pmap(one, files, workers=min(12, len(files)))
     verdicts = []
     states = 0
     for v, d in res:
@@ -178,7 +178,7 @@ def save_replay(prop, rec, verdict):
     d = os.path.join(lib.VERIF, "replays", prop.ID)
     os.makedirs(d, exist_ok=True)
     scn = {k: v for k, v in rec.items() if k not in ("snapshot", "obs")}
-    path = os.path.join(d, lib.sha(scn) + ".json")
+    path = os.path.join(d, lib.scn_sha(scn) + ".json")
     with open(path, "w") as f:
         json.dump({"property": prop.ID, "scenario": scn, "observation": rec.get("obs"),
                    "snapshot": rec.get("snapshot"), "verdict": verdict}, f, indent=1)
@@ -227,7 +227,7 @@ def run_check(prop, tier, seed):
             lib.tlc_ok(r, g["module"])
             uniq = {}
             for s in r.replays:
-                uniq.setdefault(lib.sha(s), s)
+                uniq.setdefault(lib.scn_sha(s), s)
             scs = [uniq[k] for k in sorted(uniq)]
             total = len(scs)
             if g.get("limit") and len(scs) > g["limit"]:
@@ -236,6 +236,9 @@ def run_check(prop, tier, seed):
             for s in scs:
                 s["gen"] = g.get("cfg") or g["module"]
             scenarios += scs
+            del uniq
+            r.replays = None
+            r.lines = None
             states += r.distinct
             transitions += r.generated
             gen_info.append({"module": g["module"], "cfg": g.get("cfg") or g["module"], "distinct_states": r.distinct,
@@ -268,7 +271,7 @@ def finish(prop, tier, seed, t0, obs, verdicts, states, transitions, mech_info, 
     known = load_known(prop.ID)
     bad = [v for v in verdicts if not v["ok"]]
     good = [v for v in verdicts if v["ok"]]
-    nontrivial = {lib.sha({k: v for k, v in byid[v["id"]].items() if k in ("world", "runs", "env")})
+    nontrivial = {lib.scn_sha({k: x for k, x in byid[v["id"]].items() if k not in ("snapshot", "obs")})
                   for v in good if v.get("nontrivial")}
     classes = sorted({v["class"] for v in verdicts})
     known_hit = {}
